@@ -6,7 +6,7 @@ props="$@"
 [ -z "$props" ] && props=$(python3 -c "import json;print(' '.join(c['property_id'] for c in json.load(open('/verif/MANIFEST.json'))['checks']))")
 cd /verif
 git -C /repo diff --quiet || { echo "/repo is dirty"; exit 2; }
-git -C /repo apply "$d/patch.diff"
+git -C /repo apply "$(realpath $d/patch.diff)"
 trap 'git -C /repo checkout -- .' EXIT
 for p in $props; do
   ./check $p --no-evidence 2>&1 | grep -E "FAIL|LOST|violations|Traceback|cargo check failed" | cut -c1-260 || true
